@@ -9,7 +9,7 @@
 (* violation (verdicts of kind "known" are the recorded defects D2, D4,    *)
 (* D5, D11-D13 which the model reproduces on purpose).                     *)
 (***************************************************************************)
-EXTENDS CacheDJudge
+EXTENDS CacheDJudge, Json
 
 CONSTANTS
   Callers,      \* set of caller names, e.g. {"c0", "c1"}
@@ -20,10 +20,11 @@ CONSTANTS
   Horizon,      \* the clock may advance up to clock0 + Horizon
   EstOf,        \* [key -> frequency estimate] (the sketch is abstracted to a constant function)
   WithConsumer, \* BOOLEAN: include the access-count consumer
-  WithSweeper   \* BOOLEAN
+  WithSweeper,  \* BOOLEAN
+  KeepHist      \* BOOLEAN: record the schedule in `hist` (distinguishes paths: for exporting behaviours only)
 
-VARIABLES st, gh, bad, cur, last
-vars == <<st, gh, bad, cur, last>>
+VARIABLES st, gh, bad, cur, last, hist
+vars == <<st, gh, bad, cur, last, hist>>
 
 Actors == Callers \cup {"worker", "sweeper", "consumer"}
 
@@ -33,6 +34,7 @@ Init ==
   /\ bad = {}
   /\ cur = [c \in Callers |-> 0]
   /\ last = [actor |-> "", site |-> ""]
+  /\ hist = <<>>
 
 EstKey(k) == IF k \in DOMAIN EstOf THEN EstOf[k] ELSE 0
 
@@ -87,7 +89,7 @@ ObsOf(S, a, site, inp, E) ==
       op |-> IF site = "C_Idle" THEN inp.op ELSE L.op,
       ret |-> E.ret,
       truth |-> <<>>,
-      sync |-> TRUE,
+      sync |-> TRUE, agree |-> TRUE,
       ev |-> evRecv \o evVic \o evSend]
 
 Digest(vs) == {[prop |-> vs[i].prop, kind |-> vs[i].kind, finding |-> vs[i].finding, what |-> vs[i].what] : i \in DOMAIN vs}
@@ -107,17 +109,19 @@ Step(a) ==
           /\ bad' = bad \cup Digest(Judge(st, a, site, inp, E.st, o, gh, G2))
           /\ cur' = IF site = "C_Idle" /\ IsCaller(a) THEN [cur EXCEPT ![a] = @ + 1] ELSE cur
           /\ last' = [actor |-> a, site |-> site]
+          /\ hist' = IF KeepHist THEN Append(hist, [a |-> a, s |-> site, d |-> 0]) ELSE hist
 
 Advance ==
   /\ st.now < CfgRec.clock0 + Horizon
   /\ LET S2 == EffAdvance(st, 1)
-         o == [next |-> "E_Advance", narg |-> 0, op |-> NoOp, ret |-> NoRet, ev |-> <<>>, truth |-> <<>>, sync |-> TRUE]
+         o == [next |-> "E_Advance", narg |-> 0, op |-> NoOp, ret |-> NoRet, ev |-> <<>>, truth |-> <<>>, sync |-> TRUE, agree |-> TRUE]
          G2 == GhostNext(gh, st, "env", "E_Advance", NoInp, S2, o)
      IN /\ st' = S2
         /\ gh' = G2
         /\ bad' = bad \cup Digest(Judge(st, "env", "E_Advance", NoInp, S2, o, gh, G2))
         /\ UNCHANGED cur
         /\ last' = [actor |-> "env", site |-> "E_Advance"]
+        /\ hist' = IF KeepHist THEN Append(hist, [a |-> "env", s |-> "E_Advance", d |-> 1]) ELSE hist
 
 StepCaller == \E a \in Callers : Step(a)
 StepWorker == Step("worker")
@@ -150,5 +154,19 @@ NotD11 == ~\E v \in bad : v.finding = "D11"
 NotD12 == ~\E v \in bad : v.finding = "D12"
 NotD13 == ~\E v \in bad : v.finding = "D13"
 NotD14 == ~\E v \in bad : v.finding = "D14"
+\* ---- liveness (under weak fairness of every thread): every acknowledgement handed out completes, every caller finishes
+FairSpec == Spec /\ WF_vars(StepWorker) /\ WF_vars(StepSweeper) /\ WF_vars(StepConsumer) /\ \A c \in Callers : WF_vars(Step(c))
+AllAcked == \A n \in DOMAIN st.ack : st.ack[n].done
+CallersDone == \A c \in Callers : ~HasMore(c) /\ st.pc[c] = "C_Idle"
+EventuallyAcked == <>[](CallersDone /\ AllAcked)
+
+\* ---- export of behaviours (direction 1: the specification chooses the schedule, the harness replays it on the real code)
+StampedPrograms == [c \in Callers |-> [i \in 1..Len(Programs[c]) |-> Stamp(c, i, Programs[c][i])]]
+Settled == CallersDone /\ st.queue = <<>> /\ st.pc["worker"] \in {"W_Recv", "W_Drain"} /\ st.pc["sweeper"] \in {"S_Tick", "END"}
+NextExport == ~Settled /\ Next
+ExportSpec == Init /\ [][NextExport]_vars
+ExportScenario == (hist = <<>>) => PrintT(<<"SCENARIO", ToJson([programs |-> StampedPrograms, cfg |-> CfgRec, est |-> EstOf])>>)
+ExportBehaviour == Settled => PrintT(<<"REPLAY", ToJson(hist)>>)
+
 \* hide nothing: the ghosts are part of the state
 =============================================================================
